@@ -665,6 +665,13 @@ func GenerateAltVirtualHosts(hostname string, port int, proxyDomain string) []st
 		return vhosts
 	}
 
+	// If the hostname is the proxy domain itself or one of its parent domains (e.g., campus.net service
+	// on local.campus.net proxy domain) nothing of it is left to abbreviate: the "unique" part would be
+	// the empty string, which is not a name of the service.
+	if len(uniqueHostnameParts) == 0 {
+		return vhosts
+	}
+
 	uniqueHostname := strings.Join(uniqueHostnameParts, ".")
 
 	// Add the uniqueHost.
